@@ -2,6 +2,7 @@
    The model mirrors the code after the two fix: commits in /repo
      "fix: serialize UpdateGCSafePoint's load-compare-save"                         (gcSafePointLock)
      "fix: reject service ids that are not a single path element in service GC safe points"  (checkServiceID)
+     "fix: save the cluster GC safe point only as leader and only over the value it was compared with"  (saveGCSafePointAsLeader)
 
    Quantification.  Every label list `ls` is one history and one interleaving: any number of
    UpdateGCSafePoint request threads (LLoad t v ; LSave t o — the request's two storage operations, with
@@ -10,8 +11,8 @@
    label, it runs under serviceSafePointLock; `now` is an arbitrary input of every call, not even monotone,
    so expiry of any entry at any moment is covered; ids are arbitrary (text, storage key) pairs, including
    ".." and "x/../gc_worker"), REST deletes (LApiDel) and raw entries found below the service prefix (LSeed).
-   `step = step_gen gc_locked`; gc_locked is computed from the regenerated skeleton of UpdateGCSafePoint
-   (true on this tree).  The service clauses (2-5) are postconditions of one call from ANY well-formed store
+   `step = step_gen gc_locked gc_cas`; gc_locked (a mutex around load..save of one member) and gc_cas (the save is a
+   compare-and-swap on the loaded value) are computed from the regenerated skeleton / comparison list (both true on this tree).  The service clauses (2-5) are postconditions of one call from ANY well-formed store
    (wf_svcs: keys strictly increasing, "gc_worker" text only under gc_worker's key, safe points >= 0), which
    every history preserves (C15_store_wellformed_always); they therefore hold at every call of every history. *)
 From Coq Require Import String.
@@ -39,17 +40,38 @@ Theorem C15_acknowledged_le_stored :
     exists g, gc_read (gc (sto (exec step init ls))) = Some g /\ a <= g.
 Proof. exact acks_le_stored_pf. Qed.
 
-(* why the mutex is there: the same model without it (step_gen false = the code before the fix) violates 1a,
-   and stays correct exactly for the schedules in which load..save sections do not overlap *)
-Theorem C15_without_mutex_refuted :
-  ~ (forall ls l s', step_gen false (exec (step_gen false) init ls) l = Some s' ->
-       gc_le (gc (sto (exec (step_gen false) init ls))) (gc (sto s'))).
+(* ---- request threads of several members.  gcSafePointLock serialises the requests of ONE member; a request of a deposed
+        leader whose write reaches etcd late is a request thread that overlaps with those of the new leader.  The write is a
+        compare-and-swap on the value the request was compared with (gc_cas, read off the comparison list of
+        saveGCSafePointAsLeader; the transaction is also guarded by the leader key), and with it clause 1 holds for ALL
+        interleavings of any number of request threads without any mutual exclusion (step_gen false true) ---- *)
+Theorem C15_gc_safe_point_monotone_across_members :
+  forall ls l s', step_gen false true (exec (step_gen false true) init ls) l = Some s' ->
+    gc_le (gc (sto (exec (step_gen false true) init ls))) (gc (sto s')).
+Proof. exact cas_alone_monotone_pf. Qed.
+
+Theorem C15_response_ge_all_acknowledged_across_members :
+  forall ls r before a, In (r, before) (resps (exec (step_gen false true) init ls)) -> In a before -> a <= r.
+Proof. exact cas_alone_response_pf. Qed.
+
+(* a save that arrives after the stored value has moved (the deposed leader's late write) is refused: nothing is stored,
+   nothing is acknowledged *)
+Theorem C15_stale_save_refused :
+  forall b s t o p s', thr s t = Some p -> t_old p < t_new p -> cas_ok (gc (sto s)) (t_old p) = false ->
+    step_gen b true s (LSave t o) = Some s' -> sto s' = sto s /\ acks s' = acks s /\ resps s' = resps s /\ thr s' t = None.
+Proof. exact stale_save_refused_pf. Qed.
+
+(* why both are there: the same model without the mutex and without the compare-and-swap (step_gen false false = the code
+   before the two fixes) violates 1a, and stays correct exactly for the schedules in which load..save sections do not overlap *)
+Theorem C15_without_mutex_and_cas_refuted :
+  ~ (forall ls l s', step_gen false false (exec (step_gen false false) init ls) l = Some s' ->
+       gc_le (gc (sto (exec (step_gen false false) init ls))) (gc (sto s'))).
 Proof. exact without_mutex_refuted_pf. Qed.
 
-Theorem C15_without_mutex_partial :
-  forall ls l s', guarded (step_gen false) excl_label init (ls ++ [l]) = true ->
-    step_gen false (exec (step_gen false) init ls) l = Some s' ->
-    gc_le (gc (sto (exec (step_gen false) init ls))) (gc (sto s')).
+Theorem C15_without_cas_partial :
+  forall ls l s', guarded (step_gen false false) excl_label init (ls ++ [l]) = true ->
+    step_gen false false (exec (step_gen false false) init ls) l = Some s' ->
+    gc_le (gc (sto (exec (step_gen false false) init ls))) (gc (sto s')).
 Proof. exact (monotone_guarded false excl_label (excl_ok false)). Qed.
 
 (* the old witness (A loads 5, B loads 5, B saves 20, A saves 10): B's load is now disabled while A is inside *)
@@ -62,7 +84,7 @@ Proof. exact overlap_now_blocked. Qed.
 (* ---- the store every history produces is well-formed, so clauses 2-5 apply at every call ---- *)
 Theorem C15_store_wellformed_always :
   forall ls, Forall label_ok ls -> wf_svcs (svcs (sto (exec step init ls))).
-Proof. exact (fun ls => wf_exec_pf gc_locked ls init wf_init). Qed.
+Proof. exact (fun ls => wf_exec_pf gc_locked gc_cas ls init wf_init). Qed.
 
 (* ---- clause 2: the reported minimum is never above the safe point of a live registered service ---- *)
 Theorem C15_min_le_every_live :
@@ -98,7 +120,7 @@ Proof. exact gc_worker_always_infinite_pf. Qed.
 Theorem C15_gc_worker_stays :
   forall ls s, wf_svcs (svcs (sto s)) -> gcw_ok (svcs (sto s)) ->
     Forall (fun l => label_ok l /\ no_seed l) ls -> gcw_ok (svcs (sto (exec step s ls))).
-Proof. exact (gcw_stays_pf gc_locked). Qed.
+Proof. exact (gcw_stays_pf gc_locked gc_cas). Qed.
 
 (* the old path-escaping inputs are refused and change nothing *)
 Example C15_old_path_escapes_now_refused :
@@ -200,8 +222,11 @@ Qed.
 Print Assumptions C15_gc_safe_point_monotone.
 Print Assumptions C15_response_ge_all_acknowledged.
 Print Assumptions C15_acknowledged_le_stored.
-Print Assumptions C15_without_mutex_refuted.
-Print Assumptions C15_without_mutex_partial.
+Print Assumptions C15_gc_safe_point_monotone_across_members.
+Print Assumptions C15_response_ge_all_acknowledged_across_members.
+Print Assumptions C15_stale_save_refused.
+Print Assumptions C15_without_mutex_and_cas_refuted.
+Print Assumptions C15_without_cas_partial.
 Print Assumptions C15_store_wellformed_always.
 Print Assumptions C15_min_le_every_live.
 Print Assumptions C15_below_min_not_recorded.
